@@ -328,6 +328,31 @@ pub fn c02_case(fam: &str, idx: usize, seed: u64) -> Option<Case> {
             let desc = format!("{} size={} content={} faults=[{}] paced={} tx={}ms lat={}ms", k.describe(), size, content_name(class), rules_desc(&sc.rules), sc.paced, sc.tx_ms, sc.latency_ms);
             Some(Case::from(sc, &k, desc, true))
         }
+        "adaptive" => {
+            // adaptive random loss that keeps every retransmission counter below its limit (sim::Dropper):
+            // many losses overall, long recoveries with progress in between
+            let mut rng = Rng::derive(seed, 204, idx as u64);
+            let mut k = rand_knobs(&mut rng, true);
+            k.limit = *rng.pick(&[2u32, 3, 4]);
+            k.seg = *rng.pick(&[16u16, 32, 64]);
+            let seg = k.seg as usize;
+            let size = *rng.pick(&[0usize, 1, seg, 3 * seg, 6 * seg + 5, 12 * seg, 20 * seg - 1]);
+            let class = rng.below(5);
+            let tag = rng.next_u64();
+            let c = content(&mut rng, size, class, seg, tag);
+            let mut sc = two_party(&case, rng.next_u64(), &k, c);
+            let p = *rng.pick(&[10u64, 25, 40, 60]);
+            sc.dropper = Some(Dropper { seed: rng.next_u64(), p_num: p, p_den: 100, limit: k.limit });
+            for _ in 0..rng.usize(3) {
+                sc.rules.push(rand_fault(&mut rng, first_pass_len(size, seg) + 10, 10, false));
+            }
+            sc.paced = rng.chance(2, 3);
+            sc.latency_ms = *rng.pick(&[0, 1, 5, 40]);
+            // recoveries are long: give the run the time the retransmission timers need
+            sc.observe_ms = 3 * bound_ms(&k.config(), 2000) + (size / seg + 4) as u64 * (k.limit as u64) * (k.tn as u64 + k.ta as u64) * 1000;
+            let desc = format!("{} size={} content={} adaptive loss p={}% within per-counter budgets of L-1={} plus [{}] paced={} lat={}ms", k.describe(), size, content_name(class), p, k.limit - 1, rules_desc(&sc.rules), sc.paced, sc.latency_ms);
+            Some(Case::from(sc, &k, desc, true))
+        }
         "trip" => {
             // all triples of drops for L=4 on the two smallest files, deferred NAK
             let nsites = |size: usize| c02_sites(size).len();
@@ -468,7 +493,7 @@ pub fn run_c02(tier: &str, seed: u64, replay: Option<&str>) -> (Meta, Report) {
     let meta = Meta {
         property: "C02",
         level: "fault_enumeration",
-        rule: "acknowledged mode, faults inside the hypothesis (total drops <= L-1, delays < min timer/2, Ti >= Ta+Tn). sys1 = EVERY single fault {drop, dup, dup x2 spaced, delay past next PDUs, delay 1.2 s} at every emission index of both directions (first pass + 5 / first 7) x sizes {0,1,seg-1,seg,seg+1,3seg} x 4 NAK procedures x CRC on/off (complete); sys2 = every pair of such faults at distinct sites, CRC off (thorough: complete; quick: seeded 1/6 sample); trip = every triple of drops, L=4, sizes {0,1} (thorough); rand = seeded random plans with up to L-1 drops/corruptions plus dups/delays, L in {3,4,5}. distinct_nontrivial = distinct (config, size, event-order) signatures among runs in which at least one fault fired.".into(),
+        rule: "acknowledged mode, faults inside the hypothesis (total drops <= L-1, delays < min timer/2, Ti >= Ta+Tn). sys1 = EVERY single fault {drop, dup, dup x2 spaced, delay past next PDUs, delay 1.2 s} at every emission index of both directions (first pass + 5 / first 7) x sizes {0,1,seg-1,seg,seg+1,3seg} x 4 NAK procedures x CRC on/off (complete); sys2 = every pair of such faults at distinct sites, CRC off (thorough: complete; quick: seeded 1/6 sample); trip = every triple of drops, L=4, sizes {0,1} (thorough); rand = seeded random plans with up to L-1 drops/corruptions plus dups/delays, L in {3,4,5}; adaptive = every PDU dropped with probability 10-60% subject to per-counter budgets (at most L-1 drops among EOF/ACK(EOF), among Finished/ACK(Finished), and among NAK/retransmissions since file data last made progress; first transmissions unlimited), L in {2,3,4}, files up to 20 segments: long recoveries with progress in between. distinct_nontrivial = distinct (config, size, event-order) signatures among runs in which at least one fault fired.".into(),
         exhaustive: thorough,
         assumptions: vec!["timeouts Ti=10 Ta=3 Tn=4 s (Ti >= Ta+Tn)".into(), "deadline = time of last applied fault + B, B = 2L(Ti+Ta+Tn)+d+4D+10 s".into()],
         require: vec![("c02_runs_with_fault_fired".into(), 1000)],
@@ -499,6 +524,9 @@ pub fn run_c02(tier: &str, seed: u64, replay: Option<&str>) -> (Meta, Report) {
     let nr = if thorough { 150_000 } else { 8_000 };
     rep.merge(run_cases(nr, "c02-rand", move |i| c02_case("rand", i, seed), judge_c02));
     rep.add("cases:rand", nr as u64);
+    let na = if thorough { 100_000 } else { 5_000 };
+    rep.merge(run_cases(na, "c02-adaptive", move |i| c02_case("adaptive", i, seed), judge_c02));
+    rep.add("cases:adaptive", na as u64);
     (meta, rep)
 }
 
